@@ -32,4 +32,8 @@ def load_findings(prop_id):  # noqa: F811
     for fid in [x.strip() for x in extra.split(',') if x.strip()]:
         if fid.startswith(prop_id):
             out.setdefault(fid, {'id': fid, 'property': prop_id, 'status': 'open', 'what': 'development'})
+    # VERIF_DROP_FINDINGS=id1,id2 (development aid only): treat the given open findings as closed, to see whether a
+    # candidate repair of the library really removes every case their predicates match
+    for fid in [x.strip() for x in os.environ.get('VERIF_DROP_FINDINGS', '').split(',') if x.strip()]:
+        out.pop(fid, None)
     return out
